@@ -114,6 +114,25 @@ let run_fm ic =
          | ROk v -> res := Array.append !res [| v |]; Printf.printf "F ok %s%s\n" (zs v) q)
     done with End_of_file -> ())
 
+(* ct: table of open SD files.  Lines: N | o obj lim | c slot lim | r req lim ; prints  T <result> *)
+let run_ct ic =
+  let t = ref ct_init in
+  (try while true do
+      let line = input_line ic in
+      match toks line with
+      | ["N"] -> t := ct_init; print_string "N\n"
+      | [k; a; lim] ->
+        let op = match k with "o" -> Some (CTOpen (z_of_int (int_of_string a)))
+                            | "c" -> Some (CTClose (z_of_int (int_of_string a)))
+                            | "r" -> Some (CTReset (z_of_int (int_of_string a))) | _ -> None in
+        (match op with
+         | Some o -> let (r, t1) = ct_step (z_of_int (int_of_string lim)) o !t in
+           t := t1; Printf.printf "T %s\n" (zs r)
+         | None -> print_string "T badline\n")
+      | [] -> ()
+      | _ -> print_string "T badline\n"
+    done with End_of_file -> ())
+
 let () =
   let mode = if Array.length Sys.argv > 1 then Sys.argv.(1) else "atom" in
   let ic = if Array.length Sys.argv > 2 then open_in Sys.argv.(2) else stdin in
@@ -121,4 +140,5 @@ let () =
   | "atom" -> run_atom ic
   | "ht" -> run_ht ic
   | "fm" -> run_fm ic
+  | "ct" -> run_ct ic
   | _ -> prerr_endline "unknown mode"; exit 2
